@@ -706,6 +706,18 @@ def _value(e, env, mod, depth=0):
     if isinstance(e, ast.Attribute) and e.attr == 'pattern':
         v = _value(e.value, env, mod, depth + 1)
         return v.pattern if isinstance(v, _Re) else None
+    if isinstance(e, ast.Attribute) and isinstance(e.value, ast.Name):
+        # a constant of a class of this module, read through the instance, the class object or the class name
+        hits = []
+        for cls in mod.tree.body:
+            if isinstance(cls, ast.ClassDef) and (e.value.id in ('self', 'cls') or e.value.id == cls.name):
+                tops = [st for st in cls.body if isinstance(st, ast.Assign) and len(st.targets) == 1 and is_name(st.targets[0], e.attr)]
+                stores = [x for x in ast.walk(cls) if isinstance(x, ast.Attribute) and x.attr == e.attr and isinstance(x.ctx, (ast.Store, ast.Del))]
+                if len(tops) == 1 and not stores:
+                    hits.append(tops[0].value)
+        if len(hits) == 1:
+            return _value(hits[0], {}, mod, depth + 1)
+        return None
     if isinstance(e, ast.Call):
         fn = e.func
         if isinstance(fn, ast.Name) and fn.id in ('list', 'tuple') and len(e.args) == 1 and not e.keywords:
